@@ -51,11 +51,14 @@ func replay(c *core.Ctx, raw json.RawMessage) error {
 		return err
 	}
 	c.ShardSize = shardSize
+	replaying = true
 	exec(c, cs)
 	return nil
 }
 
 const shardSize = 8
+
+var replaying bool // a replayed case may legitimately be any recorded block
 
 // ---------------------------------------------------------------- types
 
@@ -285,9 +288,19 @@ func runCase(c *core.Ctx, cs Case, t tinfo, emit bool, val func(int64) *big.Int,
 	nontrivial := false
 	first := true
 	i := 0
+	skipped := 0
 	n := forEachTuple(cs, func(tup []int64) {
 		var r *big.Int
 		kind := core.Try(func() { r = call(tup) })
+		if cs.Fn == "Clamp" && len(tup) == 3 && val(tup[1]).Cmp(val(tup[2])) > 0 {
+			// lo > hi is outside the property: the call is executed, but neither the oracle nor the model
+			// comparison looks at its result (MathUtilCheck.compared skips the same tuples)
+			skipped++
+			if !cs.Oracle && !replaying {
+				c.Unobservable("a Clamp block generated for comparison contains lo > hi")
+			}
+			return
+		}
 		what, nt := oracle(tup, kind, r)
 		nontrivial = nontrivial || nt
 		if what != "" {
@@ -327,6 +340,9 @@ func runCase(c *core.Ctx, cs Case, t tinfo, emit bool, val func(int64) *big.Int,
 		}
 		i++
 	})
+	if skipped > 0 {
+		c.CountN("clamp_calls_with_inverted_bounds_not_compared", skipped)
+	}
 	c.CountN("calls", n)
 	c.CountN("calls_"+cs.Fn, n)
 	c.CountN("calls_ty_"+cs.Ty, n)
@@ -362,18 +378,6 @@ func exec(c *core.Ctx, cs Case) {
 			utilProbes(c)
 		}
 		return
-	}
-	if cs.Fn == "Clamp" && !cs.Oracle && t.kind != 'u' {
-		// lo > hi is outside the property: such calls are executed (they must not disturb anything else) but
-		// neither the oracle nor the model comparison looks at their result
-		forEachTuple(cs, func(tup []int64) {
-			if len(tup) == 3 && valueOf(t, tup[1]).Cmp(valueOf(t, tup[2])) > 0 {
-				cs.Oracle = true
-			}
-		})
-		if cs.Oracle {
-			c.Count("clamp_blocks_with_inverted_bounds_not_compared")
-		}
 	}
 	switch cs.Ty {
 	case "int8":
@@ -653,7 +657,7 @@ func execFloat[T typ.Float](c *core.Ctx, cs Case, t tinfo) {
 		return a
 	}
 	enc := func(x T) *big.Int { return encFloat(float64(x)) }
-	var raw T // result of Sum/Product (not expressed in the order code) and of Min/Max (to compare the bits)
+	var raw T // result of Sum/Product (not expressed in the order code) and of Min/Max/Clamp/Clamp01 (to compare the bits)
 	call := func(tup []int64) *big.Int {
 		a := conv(tup)
 		switch cs.Fn {
@@ -664,9 +668,11 @@ func execFloat[T typ.Float](c *core.Ctx, cs Case, t tinfo) {
 			raw = typ.Max(a...)
 			return enc(raw)
 		case "Clamp":
-			return enc(typ.Clamp(a[0], a[1], a[2]))
+			raw = typ.Clamp(a[0], a[1], a[2])
+			return enc(raw)
 		case "Clamp01":
-			return enc(typ.Clamp01(a[0]))
+			raw = typ.Clamp01(a[0])
+			return enc(raw)
 		case "Abs":
 			return enc(typ.Abs(a[0]))
 		case "Compare":
@@ -720,10 +726,14 @@ func execFloat[T typ.Float](c *core.Ctx, cs Case, t tinfo) {
 		for i, b := range tup {
 			A[i] = val(b)
 		}
-		if (cs.Fn == "Min" || cs.Fn == "Max") && kind == "" && len(a) > 0 {
-			// "returns an argument": bit for bit one of them (which of two equal zeros is not fixed)
+		cand := a
+		if cs.Fn == "Clamp01" {
+			cand = []T{a[0], 0, 1} // "Clamp to [0,1]": v or one of the constants 0, 1
+		}
+		if (cs.Fn == "Min" || cs.Fn == "Max" || cs.Fn == "Clamp" || cs.Fn == "Clamp01") && kind == "" && len(a) > 0 {
+			// "returns an argument" / "v or the nearer bound": bit for bit one of them (which of two equal zeros is not fixed)
 			found := false
-			for _, x := range a {
+			for _, x := range cand {
 				found = found || math.Float64bits(float64(x)) == math.Float64bits(float64(raw))
 			}
 			if !found {
